@@ -419,6 +419,63 @@ def fault_run(cfg, rng_seed, clock_s, src_prefix, fault, *, write_stages=True, g
 
                 ff._File.write, ff._File.writearray = write, writearray
 
+                # the same fault one layer down: a file copied INTO the run's directory through
+                # the OS (shutil.move / copy across file systems -> os.sendfile, copyfileobj)
+                import shutil as _sh
+
+                class _FdObj:
+                    def __init__(self, name):
+                        self.name = name
+                        self._file = self
+
+                    def flush(self):
+                        pass
+
+                def _fd_name(fd):
+                    try:
+                        return os.readlink(f"/proc/self/fd/{int(fd)}")
+                    except Exception:  # noqa: BLE001
+                        return ""
+
+                orig_sendfile = getattr(os, "sendfile", None)
+                orig_copyfileobj = _sh.copyfileobj
+
+                def sendfile(out_fd, in_fd, offset, count, *a, **kw):
+                    if active[0] and io["fired"] is None:
+                        fo = _FdObj(_fd_name(out_fd))
+                        if _mine(fo):
+                            calls["n"] += 1
+                            if calls["n"] == torn["write_call"]:
+                                try:
+                                    left = os.fstat(in_fd).st_size - (offset or 0)
+                                except Exception:  # noqa: BLE001
+                                    left = count
+                                part = max(1, min(count, left) // 2)
+                                orig_sendfile(out_fd, in_fd, offset, part)
+                                _fail(fo, f"os.sendfile: {part} of {min(count, left)} bytes copied")
+                    return orig_sendfile(out_fd, in_fd, offset, count, *a, **kw)
+
+                def copyfileobj(fsrc, fdst, length=0):
+                    if active[0] and io["fired"] is None and _mine(fdst):
+                        calls["n"] += 1
+                        if calls["n"] == torn["write_call"]:
+                            data = fsrc.read()
+                            fdst.write(data[: max(1, len(data) // 2)])
+                            try:
+                                fdst.flush()
+                            except Exception:  # noqa: BLE001
+                                pass
+                            _fail(_FdObj(str(fdst.name)), f"copyfileobj: {max(1, len(data) // 2)} of {len(data)} bytes copied")
+                    return orig_copyfileobj(fsrc, fdst, length) if length else orig_copyfileobj(fsrc, fdst)
+
+                if orig_sendfile is not None:
+                    os.sendfile = sendfile
+                _sh.copyfileobj = copyfileobj
+                if torn.get("tmpdir"):
+                    # the user's scratch area ($TMPDIR) lies on another file system than the output
+                    os.environ["TMPDIR"] = torn["tmpdir"]
+                    tempfile.tempdir = None
+
             def make_tracer(box):
                 if io_mode:
                     active[0] = False  # the harness's own side directory is not the run's doing
